@@ -915,6 +915,13 @@ func (bc *Blockchain) resetRAMState(height uint32, resetHeaders bool) error {
 	atomic.StoreUint32(&bc.blockHeight, height)
 	atomic.StoreUint32(&bc.persistedHeight, height)
 
+	// NEO consults Policy's list of blocked accounts while computing the new
+	// epoch committee: refresh Policy's cache first, otherwise the stale one
+	// (of the state the node is leaving) is used.
+	err = bc.policy.InitializeCache(bc.IsHardforkEnabled, block.Index, bc.dao)
+	if err != nil {
+		return fmt.Errorf("failed to initialize Policy cache: %w", err)
+	}
 	err = bc.initializeNativeCache(block.Index, bc.dao)
 	if err != nil {
 		return fmt.Errorf("failed to initialize natives cache: %w", err)
